@@ -128,6 +128,16 @@ Theorem C11_same_across_slice_and_stream : forall ro alpha fast std_parse (s : b
 Proof. exact slice_stream_agree_datum. Qed.
 Print Assumptions C11_same_across_slice_and_stream.
 
+(* ... and between a &str and the byte slice of the same bytes: unless the slice
+   parse rejects the input as ill-formed UTF-8 (which a str never is on its own
+   terms), the datum API returns exactly the same datum, spans included, or
+   exactly the same error at the same position. *)
+Theorem C11_same_across_str_and_slice : forall ro alpha fast std_parse (inp : list event),
+  (exists l c, datum_from_trait ro alpha fast std_parse SrcSlice inp = PErr (XErr (ESyntax InvalidUnicodeCodePoint l c))) \/
+  datum_from_trait ro alpha fast std_parse SrcStr inp = datum_from_trait ro alpha fast std_parse SrcSlice inp.
+Proof. exact str_slice_agree_datum. Qed.
+Print Assumptions C11_same_across_str_and_slice.
+
 (* For a quote shorthand the head's span covers just the shorthand characters:
    whenever the datum parser finds, after trivia, one of ' ` , on the input and
    returns a datum, that datum is Datum::quotation of what follows, and the span
